@@ -75,7 +75,9 @@ class MHLGenerationCreationSession:
                 hash_entry.action = "original"
                 logger.verbose(f"  created original hash for     {relative_path}  {hash_format}: {hash_string}")
             else:
-                existing_hash_entry = history.find_first_hash_entry_for_path(history_relative_path, hash_format)
+                existing_hash_entry = history.find_first_hash_entry_for_path(
+                    history_relative_path, hash_format, files_only=True
+                )
                 if existing_hash_entry is not None:
                     if existing_hash_entry.hash_string == hash_string:
                         hash_entry.action = "verified"
@@ -133,7 +135,9 @@ class MHLGenerationCreationSession:
             hash_entry.action = "original"
             logger.verbose(f"  created original hash for     {relative_path}  {hash_format}: {hash_string}")
         else:
-            existing_hash_entry = history.find_first_hash_entry_for_path(history_relative_path, hash_format)
+            existing_hash_entry = history.find_first_hash_entry_for_path(
+                history_relative_path, hash_format, files_only=True
+            )
             if existing_hash_entry is not None:
                 if existing_hash_entry.hash_string == hash_string:
                     hash_entry.action = "verified"
